@@ -23,7 +23,7 @@ import subprocess
 import sys
 import zlib
 
-from rtc.gen import Graph, Seg, make_rgfa, gaf_record, parse_path, write_lines
+from rtc.gen import Graph, Seg, make_rgfa, gaf_record, parse_path, write_lines, colon_contigs
 
 BGZF_BLOCK = 65280  # payload bytes per block written by bgzf_write
 
@@ -47,6 +47,8 @@ def random_graph(rng, hap_mode=None, cyclic=None, n_chrom=None, max_len=3):
             have = {(l[0], l[1], l[2], l[3]) for l in g.links}
             if (refs[j].id, "+", refs[i].id, "+") not in have:
                 g = Graph(g.segs, list(g.links) + [(refs[j].id, "+", refs[i].id, "+", 0, ())])
+    if rng.random() < 0.2:
+        g = colon_contigs(g)  # contig names containing ':' (F18)
     return g
 
 
